@@ -1,44 +1,153 @@
+import re
+
 from orchestrate.common import run_check
+
+# ---- census tie: the variant lists of the three error enums in /repo vs. the model's inductive
+# types (the names of the I cases are produced from coq/Model/Spec.v's all_request_errors through
+# the runner's table and checked by the driver against request_error_of_name).  It pins structure
+# only: a new variant cannot appear without the can_be_ignored table of the model being revisited.
+
+
+def _variants(path, enum):
+    try:
+        src = open(path).read()
+    except OSError:
+        return None
+    m = re.search(r"pub enum " + enum + r"\s*\{", src)
+    if not m:
+        return None
+    i = m.end()
+    depth = 1
+    j = i
+    in_str = False
+    while depth and j < len(src):
+        ch = src[j]
+        if in_str:
+            if ch == "\\":
+                j += 1
+            elif ch == '"':
+                in_str = False
+        elif ch == '"':
+            in_str = True
+        elif ch == "{":
+            depth += 1
+        elif ch == "}":
+            depth -= 1
+        j += 1
+    body = src[i:j - 1]
+    body = re.sub(r'"(?:\\.|[^"\\])*"', '""', body, flags=re.S)
+    body = re.sub(r"//[^\n]*", "", body)
+    out = ""
+    k = 0
+    while k < len(body):
+        if body.startswith("#[", k):
+            d = 0
+            while k < len(body):
+                if body[k] == "[":
+                    d += 1
+                elif body[k] == "]":
+                    d -= 1
+                    if d == 0:
+                        break
+                k += 1
+            k += 1
+        else:
+            out += body[k]
+            k += 1
+    names = []
+    depth = 0
+    cur = ""
+    for ch in out + ",":
+        if ch in "{(":
+            depth += 1
+        elif ch in "})":
+            depth -= 1
+        elif ch == "," and depth == 0:
+            w = cur.split()
+            if w and re.match(r"[A-Z]\w*$", w[0]):
+                names.append(w[0])
+            cur = ""
+        elif depth == 0:
+            cur += ch
+    return names
+
+
+def _census(lines):
+    problems = []
+    req = _variants("/repo/scylla/src/errors.rs", "RequestError")
+    att = _variants("/repo/scylla/src/errors.rs", "RequestAttemptError")
+    db = _variants("/repo/scylla-cql-core/src/frame/response/error.rs", "DbError")
+    if req is None or att is None or db is None:
+        return [("diff", "census", "diff census: cannot find the error enums in /repo")]
+    code = set()
+    for v in req:
+        if v == "LastAttemptError":
+            for a in att:
+                if a == "DbError":
+                    code.update("LastAttemptError.DbError." + d for d in db)
+                else:
+                    code.add("LastAttemptError." + a)
+        else:
+            code.add(v)
+    model = {ln.split()[1][1:] for ln in lines if ln.startswith("I E")}
+    if model and code != model:
+        problems.append(("diff", "census RequestError/RequestAttemptError/DbError variants",
+                         "diff census: only-in-code=%s only-in-model=%s"
+                         % (sorted(code - model), sorted(model - code))))
+    return problems
+
+
+def _post(lines, verdicts):
+    return _census(lines)
 
 
 def _extra(lines, verdicts):
     multi = 0
     obs = 0
     for ln in lines:
-        if ln.startswith("X "):
+        if ln.startswith("X ") or ln.startswith("P "):
             k = len(ln.split("|", 1)[1].split())
             obs += k
             if k > 1:
                 multi += 1
-    return {"observations_checked": obs, "cases_with_more_than_one_observed_tie_resolution": multi}
+    return {"observations_checked": obs, "cases_with_more_than_one_observed_tie_resolution": multi,
+            "census": "variant lists of RequestError / RequestAttemptError / DbError in /repo == the model's (34 error names)"}
 
 
 SPEC = {
     "pid": "C13",
     "coq_targets": ["Props/C13.vo", "Extract/ExC13.vo"],
     "bin": "c13",
-    "sizes": {"quick": 40000, "thorough": 2000000},
+    "sizes": {"quick": 150000, "thorough": 2000000},
     "search_n": 400000,
-    "rule": ("I = the complete can_be_ignored table (every RequestError / RequestAttemptError / DbError variant); "
-             "X max interval fibers = one call of the real speculative_execution::execute under a paused Tokio clock "
-             "with synthetic executions (k-th runner invocation sleeps dur_k ticks and yields out_k in "
+    "rule": ("I = the complete can_be_ignored table (every RequestError / RequestAttemptError / DbError variant). "
+             "X max interval fibers = one call of the real speculative_execution::execute (hook) under a paused Tokio "
+             "clock with synthetic executions (k-th runner invocation sleeps dur_k ticks and yields out_k in "
              "{Success tag, any error variant, None = plan exhausted}); exhaustive part: every assignment of "
              "(duration in a 4-5 point grid, outcome class) to 1+max executions for max <= 2 (quick) / <= 3 (thorough) x "
-             "intervals; seeded random part: max 0..4, <= 5 executions, interval in {0,1,2,3,5,(6..20)}, durations biased "
-             "to ties with the timer and with each other. Every call is repeated 3 (quick) / 4 (thorough) / 48 (replay) "
-             "times because select! breaks ties pseudo-randomly; each distinct observation "
-             "(start times / result / end time) must be a member of the model's set of tie resolutions. "
-             "non-trivial = every X case with at least one execution specified and every I case; distinct = distinct case lines"),
-    "nontrivial": lambda ln: not ln.startswith("X ") or " - |" not in ln,
+             "intervals; seeded random part (3/4 of n): max 0..4, <= 5 executions, interval in {0,1,2,3,5,(6..20)}, "
+             "durations biased to ties with the timer and with each other. "
+             "P idem metrics policy targets = one call of the real run_request_no_side_effects (hook) over a plan of "
+             "probe targets (each attempt lasts delay ticks, then fails with a pool error); exhaustive part: every gate "
+             "configuration x every plan of <= 3 (4) targets with delays in {0,1,2}; random part (1/4 of n): <= 8 targets. "
+             "Every call is repeated 3 (quick) / 4 (thorough) / 48 (replay) times because select! breaks ties "
+             "pseudo-randomly; each distinct observation (X: start times / result / end time; P: begin/end events of the "
+             "attempts with times / result / end time) must be a member of the model's set of tie resolutions. "
+             "non-trivial = every case except X/P cases with an empty fiber/target list; distinct = distinct case lines"),
+    "nontrivial": lambda ln: " - |" not in ln,
     "trusted_base": [
         "hook scylla::policies::verif_speculative (pass-through to speculative_execution::execute / can_be_ignored, Context constructor)",
+        "hook scylla::client::verif_execution_speculative (ProbeTarget: a plan target without a node; run_probe_plan builds RequestExecutionParams and calls run_request_no_side_effects)",
         "Tokio's paused clock (start_paused current-thread runtime): virtual time advances only when the runtime is idle, exactly to the next timer deadline",
-        "spec_transient / classify / spec_returned / prop_obs are the reading of the property text (which errors are 'ignorable', what must be returned when)",
+        "spec_transient / classify / spec_returned / prop_obs / prop_trace are the reading of the property text (which errors are 'ignorable', what must be returned when, what 'in flight' means)",
+        "census scanner in checks/c13.py (regex over the three enum definitions)",
     ],
     "assumptions": [
         "executions terminate (each Complete label is eventually offered): fiber termination itself is C06/C10's subject",
         "select! tie-breaking and the order in which FuturesUnordered yields executions that became ready at the same instant are an oracle: the model enumerates every resolution, the acceptor checks membership",
+        "the end-to-end part of DESIGN (mock-node delays, overlap of frames across nodes) is not built: the gate and the shared plan are tied through probe targets instead",
     ],
+    "post": _post,
     "extra_coverage": _extra,
 }
 
